@@ -161,8 +161,13 @@ def impl_gen(req):
         return {"err": "ValueError"}
     except IndexError:
         return {"err": "IndexError"}
+    return impl_gen_on(g, req["ops"])
+
+
+def impl_gen_on(g, ops):
+    """Drive a generator object through the operations (H/B = next row on that stroke, b/s = call, r = reset)."""
     outs = []
-    for c in req["ops"]:
+    for c in ops:
         if c == "b":
             g.set_bob()
         elif c == "s":
